@@ -21,6 +21,7 @@ use super::{
     AnyStorage, Connect, ConnectError, PortAllocator, PortReq,
     client::ConnectResponse,
     credit::{AssignedCredits, CreditUser},
+    msg::MAX_MSG_LENGTH,
     mux::PortEvt,
 };
 use crate::exec;
@@ -411,7 +412,7 @@ impl Sender {
                     self.credits.request(data_len.min(u32::MAX as usize) as u32, size_of::<u32>() as u32).await?;
             }
 
-            let max_ports = self.chunk_size.min(credits.available() as usize) / size_of::<u32>();
+            let max_ports = max_ports_per_message(self.chunk_size, credits.available());
             let next =
                 if ports_response.len() > max_ports { ports_response.split_off(max_ports) } else { Vec::new() };
 
@@ -481,6 +482,20 @@ impl Drop for Sender {
     fn drop(&mut self) {
         // required for correct drop order
     }
+}
+
+/// Maximum number of port open requests that fit into one port data message,
+/// given the chunk size of the remote endpoint and the available credits.
+///
+/// Each port costs 4 credits against the chunk size of the remote endpoint.
+/// Additionally the message frame, which carries 8 bytes (port and id) per port,
+/// must not exceed the frame length limit of the remote endpoint, i.e. its
+/// chunk size plus the maximum message length.
+fn max_ports_per_message(chunk_size: usize, credits: u32) -> usize {
+    const HEADER_LEN: usize = 6;
+    let by_credits = chunk_size.min(credits as usize) / size_of::<u32>();
+    let by_frame = (chunk_size.saturating_add(MAX_MSG_LENGTH) - HEADER_LEN) / (2 * size_of::<u32>());
+    by_credits.min(by_frame)
 }
 
 /// Sends chunks of a message to the remote endpoint.
